@@ -24,6 +24,10 @@ package datatransfer
 //@     graphsync.dtChannel.lk < registry.Registry.registryLk ; graphsync.dtChannel.lk < tracing.SpansIndex.spansLk ;
 //@     graphsync.dtChannel.lk < channels.blockIndexCache.lk ; graphsync.dtChannel.lk < channels.progressCache.lk
 
+//@ coverage [lock-discipline-is-complete] {C20}: accessors
+//@     -- every function that touches a guarded / atomic field or a declared mutex, or implements an interface method with a declared
+//@     -- lock effect, is under contract
+
 //@ type TransportOption
 //@   nonnil . -- input validity: the options handed in by the application or returned by a configurer are non-nil functions
 //@ extern func dyn.TransportOption
@@ -72,7 +76,7 @@ package datatransfer
 //@ extern func (datatransfer.Transport).CleanupChannel
 //@   acquires {C20} graphsync.Transport.dtChannelsLk, graphsync.dtChannel.lk, graphsync.dtChannel.optionsLk, graphsync.requestIDToChannelIDMap.lk
 //@ extern func (datatransfer.Transport).Shutdown
-//@   acquires {C20} graphsync.Transport.dtChannelsLk
+//@   acquires {C20} graphsync.Transport.dtChannelsLk, graphsync.dtChannel.lk
 //@ extern func (datatransfer.PauseableTransport).PauseChannel
 //@   acquires {C20} graphsync.Transport.dtChannelsLk, graphsync.dtChannel.lk
 //@ extern func (datatransfer.PauseableTransport).ResumeChannel
